@@ -5,8 +5,38 @@ import prvlib as L
 HDIR, TEST, TRANSCRIPT = "contractmanager", "TestVerifC16$", "c16.impl.txt"
 
 
+def controllers_return(ctx):
+    """"a buyer / validator contract that ended is released": the manager releases a contract when its controller returns, so the
+    real ControllerBuyer (C10's harness: real controller + watcher + store over the fake node) must return once the contract was
+    closed — by itself or by somebody else — and must not stay in its close / retry loop"""
+    exe = L.build_harness(ctx, "contract")
+    if not exe:
+        return 0
+    rc, out = L.run_harness(ctx, exe, "TestVerifBuyerCtl$", env={"VERIF_N": 100 if ctx.tier == "quick" else 2000, "VERIF_FLUSH": 1}, timeout=1700)
+    if rc != 0:
+        ctx.tie_failures.append("buyer-controller harness run failed (rc=%d): %s" % (rc, out[-300:]))
+        return 0
+    cases = L.parse_cases("%s/buyerctl.impl.txt" % ctx.out)
+    bycase = dict(cases)
+    seen = set()
+    for case, c in L.run_monitor(ctx, "c10ctl", "buyerctl.impl.txt"):
+        body, _, op = c.partition(" @ ")
+        if not body.startswith("PROP "):
+            continue
+        if "is still running" in body or "is still trying to close it" in body:
+            sig = "c16:ended-contract-controller-does-not-return"
+            if sig in seen:
+                continue
+            seen.add(sig)
+            ops = [l for l in bycase.get(case, []) if l.startswith("> ")]
+            L.violation(ctx, sig, "the controller of an ended buyer / validator contract does not return, so the manager keeps watching it: " + body[5:],
+                        {"clause": body[5:], "case": case, "ops": ops, "signature_c10": "c10ctl:", "how_to_replay": "bin/check C10 --replay <this file> (set \"signature\" to \"c10ctl:\")"})
+    return len(cases)
+
+
 def run(ctx):
     ctx.trusted_base += [
+        "the assumption that a buyer / validator controller returns when its purchase has ended is checked against the real ControllerBuyer: C10's buyer-controller harness is run here too and the monitor's clauses 'closed ... and the controller is still running / still trying to close it' are C16 violations",
         "Model/Manager.lean (hand-written from contract_manager.go): chain table + watched set, clone-factory events handled one at a time",
         "correspondence harness harness/contractmanager/verif_c16_test.go: the real ContractManager over the real HashrateEthereum store, the Ethereum node behind it faked (harness/vh/chain.go answers eth_call from a table by ABI method and delivers logs to the store's subscriptions); controllers are fake contracts whose Run returns when the history says so; compared op by op with the model, and the settled state with the specification by the monitor",
         "assumed, not verified: the event vocabulary of the Solidity contracts (contractCreated on creation, clonefactoryContractPurchased on every purchase, contractDeleteUpdated on the delete flag; a close raises no clone-factory event), which are not in this repository; that a buyer / validator controller returns when its purchase has ended (C10's controller model)",
@@ -78,7 +108,9 @@ def run(ctx):
     for h, lines in cases:
         kinds[h.split()[-1]] = kinds.get(h.split()[-1], 0) + 1
         nops += sum(1 for l in lines if l.startswith("> "))
+    ctl_histories = controllers_return(ctx)
     ctx.coverage.update({
+        "buyer_controller_histories": ctl_histories,
         "evaluations": nops, "distinct_nontrivial": L.distinct_count(cases, lambda h, ls: any(l.startswith("> purchased") for l in ls)),
         "rule": "chain states of 2..4 contracts (seller me / others, purchased or not, buyer / validator me or others) at start-up; then seeded create / purchase (any buyer, any validator) / close / controller exit / delete flag / duplicate purchase events / restarts; two thirds of the histories orderly (the controller of an ended buyer / validator purchase exits before anything else happens to that contract), one third racy (exits delivered at arbitrary later points); every history ends settled. Non-trivial: at least one purchase; distinct by op list",
         "history_kinds": kinds, "traces_validated_against_impl": len(cases),
@@ -89,6 +121,16 @@ def run(ctx):
 def replay(ctx, path):
     import json, os
     rp = json.load(open(path))
+    if rp.get("signature", "").startswith("c16:ended-contract-controller"):   # a buyer-controller history: C10's replay
+        import importlib.util
+        spec = importlib.util.spec_from_file_location("chk_C10", "%s/checks/C10.py" % L.VERIF)
+        mod = importlib.util.module_from_spec(spec)
+        spec.loader.exec_module(mod)
+        rp["signature"] = "c10ctl:" + rp["signature"]
+        os.makedirs(ctx.out, exist_ok=True)
+        tmp = ctx.out + "/replay-as-c10.json"
+        json.dump(rp, open(tmp, "w"))
+        return mod.replay(ctx, tmp)
     ops = [o[2:] if o.startswith("> ") else o for o in rp.get("ops", [])]
     exe = L.build_harness(ctx, HDIR)
     if not exe or not L.build_driver(ctx):
